@@ -27,6 +27,7 @@ type holdings struct {
 
 type secretBook struct {
 	derivedCache map[string]map[string][]byte
+	pubCache     map[string][]byte
 }
 
 func (b *secretBook) derivedFor(x []byte, y []byte) map[string][]byte {
@@ -47,6 +48,21 @@ func (b *secretBook) derivedFor(x []byte, y []byte) map[string][]byte {
 		"ake.c": ak.c, "ake.c'": ak.cp, "ake.m1": ak.m1, "ake.m2": ak.m2, "ake.m1'": ak.m1p, "ake.m2'": ak.m2p, "dh-shared-secret": s.Bytes()}
 	b.derivedCache[k] = d
 	return d
+}
+
+func allExps(p *Party) [][]byte { return lastExps(p, 1<<30) }
+
+// publicFor: the bytes of g^y (cached)
+func (b *secretBook) publicFor(y []byte) []byte {
+	if b.pubCache == nil {
+		b.pubCache = map[string][]byte{}
+	}
+	if v, ok := b.pubCache[string(y)]; ok {
+		return v
+	}
+	v := new(big.Int).Exp(big.NewInt(2), new(big.Int).SetBytes(y), groupP).Bytes()
+	b.pubCache[string(y)] = v
+	return v
 }
 
 func lastExps(p *Party, n int) [][]byte {
@@ -134,8 +150,31 @@ func (s *Sys) holdingsOf(who int, book *secretBook) holdings {
 		if q == p {
 			continue
 		}
-		for _, x := range lastExps(p, 5) {
-			for _, y := range lastExps(q, 5) {
+		// candidate pairs: our recent exponents x the peer's recent ones and, however old, every exponent of the peer
+		// whose public value is still somewhere in this conversation (a long flood of stale key-exchange messages can
+		// leave keys derived from a peer value of many generations ago)
+		ys := lastExps(q, 5)
+		for _, y := range allExps(q) {
+			known := false
+			for _, y0 := range ys {
+				known = known || bytes.Equal(y0, y)
+			}
+			if !known && len(sc.find(book.publicFor(y))) > 0 {
+				ys = append(ys, y)
+			}
+		}
+		xs := lastExps(p, 5)
+		for _, i := range h.exps { // and every exponent of ours that is still held
+			known := false
+			for _, x0 := range xs {
+				known = known || bytes.Equal(x0, p.rnd.draws[i].val)
+			}
+			if !known {
+				xs = append(xs, p.rnd.draws[i].val)
+			}
+		}
+		for _, x := range xs {
+			for _, y := range ys {
 				for name, v := range book.derivedFor(x, y) {
 					if paths := sc.find(v); len(paths) > 0 {
 						h.derived = append(h.derived, name)
